@@ -1,5 +1,5 @@
 // WARNING: Only those functions that are filesystem agnostic should be included here.
-use std::path::{self, Component, Path, PathBuf};
+use std::path::{Component, Path, PathBuf};
 
 use crate::{core::*, errors::*};
 
@@ -336,7 +336,8 @@ pub fn last<T: AsRef<Path>>(path: T) -> RvResult<String> {
 /// assert_eq!(sys::mash("/foo", "/bar"), PathBuf::from("/foo/bar"));
 /// ```
 pub fn mash<T: AsRef<Path>, U: AsRef<Path>>(dir: T, base: U) -> PathBuf {
-    let base = trim_prefix(base, path::MAIN_SEPARATOR.to_string());
+    // Drop every leading separator so that the result always stays under dir
+    let base: PathBuf = base.as_ref().components().skip_while(|x| x == &Component::RootDir).collect();
     let path = dir.as_ref().join(base);
     path.components().collect::<PathBuf>()
 }
